@@ -29,9 +29,10 @@ EXTENDS Integers, Sequences, FiniteSets
 \*   format   [print, file]             one output group was formatted
 \*   write    [name, ok]                the file server was asked to write it
 \*   end      [ok, nerrors, nmessages, panic]
-\*   exit     [code, signal, errors, created, wfault]   the real executable seen from outside (mode "bin"):
+\*   exit     [code, signal, errors, created, wfault, mustfail]   the real executable seen from outside (mode "bin"):
 \*            exit status, killing signal (0 = none), "error:" on stderr?, files created, was an
-\*            output path made unwritable on purpose?
+\*            output path made unwritable on purpose?  mustfail: an output path was unwritable AND the same
+\*            command line with a writable path there writes a file (so success cannot be clean)
 
 DInit == [phase |-> "idle", mode |-> "", cmd |-> <<>>, g |-> 0, w |-> 0, pend |-> "",
           asmout |-> FALSE, why |-> ""]
@@ -112,6 +113,7 @@ DStep(ds, e) ==
                 ELSE IF e.code = 101 THEN Reject(ds, "crash")          \* Rust's panic exit status
                 ELSE IF e.code = 0
                 THEN IF e.errors THEN Reject(ds, "exit status 0 with an error diagnostic")
+                     ELSE IF e.mustfail THEN Reject(ds, "success although a requested output could not be written")
                      ELSE [ds EXCEPT !.phase = "exit-ok"]
                 ELSE IF ~e.errors THEN Reject(ds, "failure without an error diagnostic")
                      ELSE IF e.created > 0 /\ ~e.wfault THEN Reject(ds, "failure after producing output")
